@@ -487,6 +487,10 @@ def family_oracles(f, res):
     # reversal: measured 1.5e-12 A (eps 1e-11) / 4e-10 (eps 1e-8); window 1e-9 A resp. 1e3*eps
     tol_x = max(1e-9, 1.0e2 * eps)
     tol_v = max(1e-10, 1.0e1 * eps)
+    if not f["reuse"] and f["com"] is None:
+        # without density reuse (and without the periodic centre-of-mass projection, which is not time-symmetric) the force is a function of the positions alone (every SCF starts from the same guess),
+        # so velocity Verlet retraces to round-off whatever the SCF threshold: measured <= 3e-14 A, 2e-15 A/fs
+        tol_x, tol_v = 1e-11, 1e-12
     for k in range(nm):
         meas[f"back_x.{k}"] = rv["back_x"][k]
         meas[f"back_v.{k}"] = rv["back_v"][k]
@@ -678,6 +682,31 @@ def run_extra(item):
             if d > 1e-12:
                 prob.append(("Ek_row", k, float(d), f"/data/thermo/Ek differs from 1/2 sum m v^2 of the same /velocities rows by {d:.2e} relative"))
         return {"error": None, "problems": prob}
+    if kind == "rev_noreuse":
+        # a loose SCF threshold amplifies any dependence of the force on the history of the run
+        mols = [M.apply(M.get(n), R) for n in item["mol"].split("+")]
+        n = 10
+        common = dict(dt=0.4, temp=300.0, seed=9, reuse_P=False, out=dict(data=1, coordinates=1, velocities=1, forces=0))
+        p = sp.make_params("AM1", eps=item["eps"])
+        r1 = MD.run_md("bomd", mols, p, n, **common)
+        if r1["error"]:
+            return {"error": r1["error"]}
+        mols2 = []
+        nmax = max(len(m["species"]) for m in mols)
+        v2 = np.zeros((len(mols), nmax, 3))
+        for k, m in enumerate(mols):
+            m2 = dict(m)
+            m2["coords"] = r1[f"h5.{k}"]["coordinates/values"][-1].copy()
+            mols2.append(m2)
+            v2[k, : len(m["species"])] = -r1[f"h5.{k}"]["velocities/values"][-1]
+        r2 = MD.run_md("bomd", mols2, p, n, velocities=v2, **common)
+        if r2["error"]:
+            return {"error": r2["error"]}
+        for k in range(len(mols)):
+            dx = float(np.abs(r2[f"h5.{k}"]["coordinates/values"][-1] - r1[f"h5.{k}"]["coordinates/values"][0]).max())
+            if dx > 1e-11:
+                prob.append(("reversal", k, dx, f"reuse_P=False, scf_eps={item['eps']:g}: forward {n} steps, v -> -v, forward {n} steps ends {dx:.3e} A from the start (tolerance 1e-11: the force must depend on the positions only)"))
+        return {"error": None, "problems": prob}
     if kind == "molid":
         mols = [M.apply(M.get(n), R) for n in item["mol"].split("+")]
         n = 5
@@ -718,13 +747,16 @@ def extras(chk, tier, seed):
             items.append(dict(kind="com_user", mol=mol, com=com, rot=seed))
     for molid in ([1], [1, 0], [0], [0, 1]):
         items.append(dict(kind="molid", mol="CH4+H2O", molid=molid, rot=seed))
+    for mol in ("H2CO", "CH4+H2O"):
+        for eps in (1e-5, 1e-7):
+            items.append(dict(kind="rev_noreuse", mol=mol, eps=eps, rot=seed))
     if tier != "quick":
         for molid in ([2], [2, 0], [1, 2]):
             items.append(dict(kind="molid", mol="CH4+H2O+HF", molid=molid, rot=seed))
     res = pmap(run_extra, items, chunk=1, timeout=1800, progress="C08 extra single-run lattices")
     for it, r in zip(items, res):
         key = "extra|" + "|".join(f"{k}={v}" for k, v in it.items())
-        f = _fam(it["mol"], 1e-11, True, it.get("com"), "user" if it["kind"] == "com_user" else "mb", 0, 2.0, it["rot"])
+        f = _fam(it["mol"], it.get("eps", 1e-11), it["kind"] != "rev_noreuse", it.get("com"), "user" if it["kind"] == "com_user" else "mb", 0, 2.0, it["rot"])
         if is_timeout(r) or is_error(r):
             chk.harness_error(f"{key}: {str(r)[:300]}")
             continue
